@@ -36,7 +36,7 @@ BASES = ["plain", "aliased", "schema", "temporal", "subq", "subq_aliased", "seto
 ITEMS = ["plain", "aliased", "self", "subq", "cte_ref", "schema"]
 PREV = [False, True]
 # operand table roles
-ROLES = ["base", "item", "prev", "absent", "base_twin", "base_other_alias", "item_twin", "none", "declared_cte"]
+ROLES = ["base", "item", "prev", "absent", "base_twin", "base_other_alias", "item_twin", "none", "declared_cte", "base_other_schema"]
 CRITS = ["eq", "eq_swapped", "eq_samecol", "and_third", "or_third", "func", "neg", "in_sub_absent", "eq_scalar_sub", "between"]
 
 
@@ -112,6 +112,11 @@ def role_table(role, base, base_twin, item, item_twin, prev):
         if isinstance(base, Table):
             return Table(base._table_name, schema=base._schema, alias="zz_alias"), False
         return None
+    if role == "base_other_schema":
+        if isinstance(base, Table):
+            other = "zz_schema" if base._schema is None else None
+            return Table(base._table_name, schema=other, alias=base.alias), False
+        return None
     if role == "none":
         return None, True  # a table-less field refers to no table at all
     if role == "declared_cte":
@@ -149,7 +154,7 @@ def mk_crit(shape, A, B, C):
 
 
 def join_cases(tier):
-    roles2 = ROLES if tier == "thorough" else ["base", "item", "prev", "absent", "base_twin", "base_other_alias", "none", "declared_cte"]
+    roles2 = ROLES if tier == "thorough" else ["base", "item", "prev", "absent", "base_twin", "base_other_alias", "none", "declared_cte", "base_other_schema"]
     for b in BASES:
         for it in ITEMS:
             for pv in PREV:
@@ -412,7 +417,7 @@ def misc_cases():
             yield {"k": "case", "pos": pos, "whens": n}
     for stmt in ("select", "insert", "update", "delete", "update_join", "update_from"):
         for what in ("str", "own_field", "foreign_field", "literal", "arith_own", "arith_foreign", "function", "star", "aggregate",
-                     "joined_field", "from_field"):
+                     "joined_field", "from_field", "arith_mixed", "arith_mixed_swapped", "tuple_mixed"):
             yield {"k": "returning", "stmt": stmt, "what": what}
     for name in ("into", "update", "delete", "delete_after_select", "update_after_select", "create_table", "primary_key", "drop_table",
                  "for_", "for_portion", "for_then_portion", "mysql_rollup", "rows_range", "columns_after_as_select",
@@ -458,10 +463,11 @@ def run_returning(case, res):
         return
     arg = {"str": "id", "own_field": t.id, "foreign_field": Table("zz").x, "literal": 1, "arith_own": t.a + 1,
            "arith_foreign": Table("zz").x + 1, "function": FN.Lower(t.a), "star": "*", "aggregate": FN.Count(t.a),
-           "joined_field": u.x, "from_field": u.x}[what]
+           "joined_field": u.x, "from_field": u.x, "arith_mixed": t.a + Table("zz").x, "arith_mixed_swapped": Table("zz").x + t.a,
+           "tuple_mixed": (t.a, Table("zz").x)}[what]
     if not dml:
         exp = QueryException
-    elif what in ("foreign_field", "arith_foreign", "function", "aggregate"):
+    elif what in ("foreign_field", "arith_foreign", "function", "aggregate", "arith_mixed", "arith_mixed_swapped", "tuple_mixed"):
         exp = QueryException
     else:
         exp = None
